@@ -297,7 +297,7 @@ def _c08_modes(stride, nsh):
 
 PROPS["C08"] = pbt(
     "pbt_c08", "pbt_c08.cpp", modes_variant="o2",
-    rule=("in-memory set->get for 32-bit patterns of int32, uint32 and float: every 1024th pattern with a "
+    rule=("in-memory set->get for 32-bit patterns of int32, uint32 and float: every 256th pattern with a "
           "seed-dependent offset (quick), EVERY pattern (thorough, exhaustive: 3 x 2^32); boundary families of all six "
           "numeric types (type limits +-2, 2^k, 2^k+-1, 10^k+-1, single-bit patterns, smallest/largest normal and "
           "subnormal magnitudes, +-0, +-inf, NaN) and every letter-case variant of the boolean words, in memory and "
@@ -310,7 +310,7 @@ PROPS["C08"] = pbt(
                 "Thorough enumerates all 2^32 values of int32, uint32 and float (reported under exhaustive_subspaces "
                 "with exact counts); 64-bit types are sampled: boundary families + 2M/200M random patterns."),
     level_note="exhaustive loops run against an -O2 build of /repo's sources without sanitizers; the sampled parts under ASan+UBSan",
-    quick={"cases": 12000, "modes": _c08_modes(1024, 4)},
+    quick={"cases": 40000, "modes": _c08_modes(256, 4)},
     thorough={"cases": 600000, "modes": _c08_modes(1, 16)},
     floors={"subnormal_double": 0.10, "file_roundtrip": 0.30},
 )
@@ -356,7 +356,7 @@ PROPS["C14"] = pbt(
                 "reported under exhaustive_subspaces); 3k (quick) / 80k (thorough) sampled cells with varying fillers "
                 "and neighbouring lengths; ASan+UBSan watch the buffers."),
     level_note="names longer than NAME_MAX / paths longer than PATH_MAX cannot be created: for those cells only 'rejected cleanly, no content' is testable",
-    quick={"cases": 3000, "modes": [["grid", str(k), "16"] for k in range(16)]},
+    quick={"cases": 12000, "modes": [["grid", str(k), "16"] for k in range(16)]},
     thorough={"cases": 80000, "modes": [["grid", str(k), "16"] for k in range(16)]},
     floors={},
 )
